@@ -410,6 +410,9 @@ Proof.
   split; auto. destruct (snd (cleaned i)); [discriminate | congruence].
 Qed.
 
+Definition fst_res {X Y : Type} (r : res (X * Y)) : res X :=
+  match r with Ok (x, _) => Ok x | Err => Err | Panic => Panic | OOF => OOF end.
+
 (* ------------------------------------------------------------------ *)
 (* the simulation: what the bundler writes is what the bundle run reads *)
 
@@ -577,4 +580,214 @@ Section Sim.
     - rewrite comp_S in H. destruct (sim_list k IH _ _ _ _ _ Hr IA Hw H) as (I & X & B).
       split; [exact I | split; [exact X |]]. intros B0 IB XB. rewrite comp_S. apply B; auto.
   Qed.
+
+  (* bundling the main script's imports and then running the archive, against
+     compiling the same imports from source *)
+  Lemma core : forall fuel src imps r0 b A0,
+    names (r0 ++ [b]) = true -> lookup L (R ++ r0 ++ [b]) = Some src -> f_imps src = Some imps ->
+    inv A0 -> lookup A0 (P ++ r0 ++ [b]) = Some src -> q_cfg_goquote q = false ->
+    (forall k d i A A1, fst_res (comp q L (Some c) k d i A) = fst_res (comp q L None k d i A1)) ->
+    let bun :=
+      match
+        match comp q L (Some c) fuel (R ++ r0) imps A0 with
+        | Ok (_, A') => Ok {| a_files := A'; a_cfg := Some (P ++ r0 ++ [b]) |}
+        | Err => Err | Panic => Panic | OOF => OOF
+        end
+      with
+      | Ok a => resolve_bun q fuel a
+      | Err => Err | Panic => Panic | OOF => OOF
+      end in
+    match comp q L None fuel (R ++ r0) imps [] with
+    | Ok (ch, _) => bun = Ok (Node src KScript ch)
+    | Err => bun = Err
+    | Panic => True
+    | OOF => True
+    end.
+  Proof.
+    intros fuel src imps r0 b A0 Hn Hl Hi IA Hit Hc Hhook bun. subst bun.
+    pose proof (Hhook fuel (R ++ r0) imps A0 []) as E.
+    assert (Nr0 : names r0 = true) by (rewrite names_app in Hn; apply andb_true_iff in Hn; tauto).
+    assert (Wi : forallb wf_import imps = true).
+    { pose proof (wf_layout_lookup _ _ _ HwfL Hl) as W. unfold wf_file in W. rewrite Hi in W. exact W. }
+    destruct (comp q L None fuel (R ++ r0) imps []) as [[ch A00]| | |] eqn:Ec;
+      destruct (comp q L (Some c) fuel (R ++ r0) imps A0) as [[ch' A']| | |] eqn:Eb;
+      simpl in E; try discriminate; try exact I; try reflexivity.
+    inversion E; subst ch'.
+    destruct (sim_all fuel r0 imps A0 ch A' Nr0 IA Wi Eb) as (I' & X' & B').
+    unfold resolve_bun. simpl a_cfg. simpl a_files.
+    unfold cfg_survives. rewrite Hc. simpl negb. simpl orb.
+    rewrite (X' _ _ Hit). unfold resolve_in. rewrite Hi.
+    assert (Er : removelast (P ++ r0 ++ [b]) = P ++ r0).
+    { rewrite removelast_app by (intro E0; apply app_eq_nil in E0; destruct E0; discriminate).
+      rewrite removelast_last. reflexivity. }
+    rewrite Er. rewrite (B' A' I' (ext_refl A')). reflexivity.
+  Qed.
 End Sim.
+
+(* ------------------------------------------------------------------ *)
+(* the bundling hooks, and the quirk set (which only the hooks consult), do
+   not change which files are compiled nor whether compilation fails *)
+
+Section Hook.
+  Variables q q' : quirks.
+  Variable L : layout.
+  Variable h : option cfg.
+
+  Definition agree (s1 s2 : path -> list import -> layout -> res (list tree * layout)) : Prop :=
+    forall d imps A A0, fst_res (s1 d imps A) = fst_res (s2 d imps A0).
+
+  Lemma load_hook : forall s1 s2, agree s1 s2 -> forall ip i A A0,
+    fst_res (load L h s1 ip i A) = fst_res (load L None s2 ip i A0).
+  Proof.
+    intros s1 s2 H ip i A A0. unfold load, hook_file.
+    destruct (lookup L (add_arrai ip)) as [f|]; [|destruct h; reflexivity].
+    destruct h as [c|]; cbv beta iota;
+      (destruct (i_dec i); [reflexivity|]);
+      (destruct (negb (seg_eqb (path_ext (add_arrai ip)) s_arrai_ext)); [reflexivity|]);
+      (destruct (f_imps f) as [imps|]; [|reflexivity]);
+      match goal with |- context [s1 ?a ?b ?c0] => specialize (H a b c0 A0) end;
+      destruct (s1 _ _ _) as [[? ?]| | |]; destruct (s2 _ _ _) as [[? ?]| | |]; simpl in *; congruence.
+  Qed.
+
+  Lemma import_hook : forall s1 s2, agree s1 s2 -> forall d i A A0,
+    fst_res (do_import q L h s1 d A i) = fst_res (do_import q' L None s2 d A0 i).
+  Proof.
+    intros s1 s2 H d i A A0. rewrite !do_import_eq.
+    destruct (negb (i_root i) && _); [reflexivity|].
+    destruct (i_root i && _); [reflexivity|].
+    destruct (i_root i).
+    - destruct (find_root L d) as [root|] eqn:Ef; [|reflexivity].
+      apply find_root_has in Ef. unfold has_gomod, mem in Ef.
+      assert (Hs : exists A1, hook_sentinel q L h root A = Ok A1).
+      { unfold hook_sentinel. destruct h; [|eauto].
+        destruct (lookup L (root ++ [s_gomod])); [eauto | discriminate]. }
+      destruct Hs as [A1 Hs]. rewrite Hs. simpl hook_sentinel. apply load_hook; auto.
+    - apply load_hook; auto.
+  Qed.
+
+  Lemma list_hook : forall s1 s2, agree s1 s2 -> forall d imps A A0,
+    fst_res (comp_list q L h s1 d imps A) = fst_res (comp_list q' L None s2 d imps A0).
+  Proof.
+    intros s1 s2 H d. induction imps as [|a imps IH]; intros A A0; [reflexivity|].
+    rewrite !comp_list_cons.
+    pose proof (import_hook _ _ H d a A A0) as E.
+    destruct (do_import q L h s1 d A a) as [[t A1]| | |];
+      destruct (do_import q' L None s2 d A0 a) as [[t' A1']| | |]; simpl in E; try discriminate; try reflexivity.
+    inversion E; subst. specialize (IH A1 A1').
+    destruct (comp_list q L h s1 d imps A1) as [[? ?]| | |];
+      destruct (comp_list q' L None s2 d imps A1') as [[? ?]| | |]; simpl in *; congruence.
+  Qed.
+
+  Lemma comp_hook : forall k, agree (comp q L h k) (comp q' L None k).
+  Proof.
+    induction k as [|k IH]; intros d imps A A0; [reflexivity|].
+    rewrite !comp_S. apply list_hook. exact IH.
+  Qed.
+End Hook.
+
+Lemma resolve_src_q : forall q fuel L main, resolve_src q fuel L main = resolve_src quirks_off fuel L main.
+Proof.
+  intros. unfold resolve_src, resolve_in. destruct (lookup L main) as [f|]; [|reflexivity].
+  destruct (f_imps f) as [imps|]; [|reflexivity].
+  pose proof (comp_hook q quirks_off L None fuel (removelast main) imps [] []) as E.
+  destruct (comp q L None fuel (removelast main) imps []) as [[? ?]| | |];
+    destruct (comp quirks_off L None fuel (removelast main) imps []) as [[? ?]| | |]; simpl in E; congruence.
+Qed.
+
+(* ------------------------------------------------------------------ *)
+(* C15 for the repaired model *)
+
+(* the bundle run yields the import tree (hence the value) of the source run,
+   or both fail *)
+Definition like_source (q : quirks) (fuel : nat) (L : layout) (main : path) : Prop :=
+  match resolve_src q fuel L main with
+  | Ok t => run_bundle q fuel L main = Ok t
+  | Err => run_bundle q fuel L main = Err
+  | Panic => True
+  | OOF => True
+  end.
+
+Theorem bundle_like_source_off : forall fuel L main, pre L main = true -> like_source quirks_off fuel L main.
+Proof.
+  intros fuel L main Hpre. unfold like_source. unfold pre in Hpre. apply andb_true_iff in Hpre. destruct Hpre as [HwL Hm].
+  unfold wf_main in Hm.
+  apply andb_true_iff in Hm. destruct Hm as [Hm Hroot].
+  apply andb_true_iff in Hm. destruct Hm as [Hm _].
+  apply andb_true_iff in Hm. destruct Hm as [Hm Hng].
+  apply andb_true_iff in Hm. destruct Hm as [Hn Hlen].
+  apply negb_true_iff in Hng. apply Nat.leb_le in Hlen.
+  assert (Hmne : main <> []) by (destruct main; simpl in Hlen; [lia | discriminate]).
+  destruct (exists_last Hmne) as (d & b & Emain).
+  assert (Ed : removelast main = d) by (subst main; apply removelast_last).
+  assert (Eb : last_seg main = b) by (subst main; unfold last_seg; apply last_last).
+  assert (Hd : d <> []).
+  { subst main. rewrite app_length in Hlen. simpl in Hlen. destruct d; simpl in *; [lia | discriminate]. }
+  unfold run_bundle, bundle, resolve_src. cbv zeta. rewrite Ed, Eb in *.
+  destruct (lookup L main) as [src|] eqn:Em; [|reflexivity].
+  unfold resolve_in, bundle_with. rewrite ?Ed.
+  assert (Hk : forall (c : cfg) (k : nat) (dd : path) (i : list import) (A A1 : layout),
+             fst_res (comp quirks_off L (Some c) k dd i A) = fst_res (comp quirks_off L None k dd i A1)).
+  { intros. apply comp_hook. }
+  destruct (find_root L d) as [root|] eqn:Ef.
+  - (* main lies in a module *)
+    destruct (lookup L (root ++ [s_gomod])) as [gm|] eqn:Eg; [|discriminate].
+    unfold parse_mod. simpl q_modre_anchored. cbv iota.
+    destruct (modre_lines (f_bytes gm)) as [name|] eqn:En; [|discriminate].
+    apply andb_true_iff in Hroot. destruct Hroot as [Nname _].
+    destruct (f_imps src) as [imps|] eqn:Ei; [|reflexivity].
+    destruct (find_root_prefix _ _ _ Ef) as [r0 Er0].
+    assert (Hrne : root <> []).
+    { intro E. subst root. apply find_root_has in Ef. unfold has_gomod in Ef. simpl in Ef. congruence. }
+    set (pre0 := s_module :: split_slash name).
+    assert (Npre : names pre0 = true) by (unfold pre0; simpl; exact Nname).
+    assert (Emain2 : main = root ++ r0 ++ [b]) by (rewrite Emain, Er0, app_assoc; reflexivity).
+    assert (Nrb : names (r0 ++ [b]) = true).
+    { rewrite Emain2 in Hn. rewrite names_app in Hn. apply andb_true_iff in Hn. tauto. }
+    assert (Ecl : clean_abs (pre0 ++ [s_gomod]) = pre0 ++ [s_gomod]).
+    { unfold clean_abs. rewrite clean_abs_aux_names; [reflexivity|]. rewrite names_app, Npre. reflexivity. }
+    rewrite Ecl.
+    set (c := {| c_named := true; c_prefix := pre0; c_abs_root := root |}).
+    assert (Emf : bundle_path c main = pre0 ++ r0 ++ [b]).
+    { unfold bundle_path. simpl. rewrite Emain2. apply bundle_path_under; auto. }
+    rewrite Emf.
+    assert (I0 : inv L root pre0 (add (add [] (pre0 ++ [s_gomod]) gm) (pre0 ++ r0 ++ [b]) src)).
+    { apply inv_add; [apply inv_add; [apply inv_nil | exact Eg] | rewrite <- Emain2; exact Em]. }
+    assert (Hit : lookup (add (add [] (pre0 ++ [s_gomod]) gm) (pre0 ++ r0 ++ [b]) src) (pre0 ++ r0 ++ [b]) = Some src).
+    { apply (inv_hit L root pre0); [apply inv_add; [apply inv_nil | exact Eg] | rewrite <- Emain2; exact Em]. }
+    rewrite Emain2 in Em. rewrite Er0.
+    pose proof (core quirks_off L c root pre0 eq_refl eq_refl eq_refl Hrne Npre (fun E => match Bool.diff_true_false E with end)
+             (within_named L root (find_root_has _ _ _ Ef)) HwL fuel src imps r0 b _ Nrb Em Ei I0 Hit eq_refl (Hk c)) as C.
+    cbv zeta in C.
+    destruct (comp quirks_off L None fuel (root ++ r0) imps []) as [[ch A00]| | |]; exact C.
+  - (* no module: /unnamed *)
+    destruct (f_imps src) as [imps|] eqn:Ei; [|reflexivity].
+    set (c := {| c_named := false; c_prefix := [s_unnamed]; c_abs_root := d |}).
+    assert (Nb : names ([] ++ [b]) = true).
+    { rewrite Emain in Hn. rewrite names_app in Hn. apply andb_true_iff in Hn. tauto. }
+    assert (Em2 : lookup L (d ++ [] ++ [b]) = Some src) by (simpl; rewrite <- Emain; exact Em).
+    assert (I0 : inv L d [s_unnamed] (add [] ([s_unnamed] ++ [] ++ [b]) src)).
+    { apply inv_add; [apply inv_nil | exact Em2]. }
+    assert (Hit : lookup (add [] ([s_unnamed] ++ [] ++ [b]) src) ([s_unnamed] ++ [] ++ [b]) = Some src).
+    { apply (inv_hit L d [s_unnamed]); [apply inv_nil | exact Em2]. }
+    pose proof (core quirks_off L c d [s_unnamed] eq_refl eq_refl eq_refl Hd eq_refl (fun _ => eq_refl)
+             (within_unnamed L d Ef) HwL fuel src imps [] b _ Nb Em2 Ei I0 Hit eq_refl (Hk c)) as C.
+    cbv zeta in C. rewrite app_nil_r in C. simpl app in C.
+    destruct (comp quirks_off L None fuel d imps []) as [[ch A00]| | |]; exact C.
+Qed.
+
+(* the statement of DESIGN 5.3: for every quirk set, on every input on which
+   the run does not depend on an enabled defective site *)
+Theorem bundle_like_source : forall q fuel L main, pre L main = true ->
+  run_bundle q fuel L main = run_bundle quirks_off fuel L main ->
+  like_source q fuel L main.
+Proof.
+  intros q fuel L main Hp Hg. unfold like_source. rewrite resolve_src_q, Hg.
+  apply (bundle_like_source_off fuel L main Hp).
+Qed.
+
+(* the bundle run is a function of the archive alone: by construction
+   (resolve_bun takes no layout and no working directory), stated for the record *)
+Theorem run_depends_only_on_archive : forall q fuel L1 m1 L2 m2 a,
+  bundle q fuel L1 m1 = Ok a -> bundle q fuel L2 m2 = Ok a ->
+  run_bundle q fuel L1 m1 = run_bundle q fuel L2 m2.
+Proof. intros. unfold run_bundle. rewrite H, H0. reflexivity. Qed.
